@@ -530,6 +530,10 @@ def gen_source(rng, nf, name, flags=(0, 1, 1, 1, 2, 3, 4, 9), min_fit=0):
     for v in valid:
         f = 10 ** rng.uniform(-3, 3)           # sources below 1 mJy too: a flag-4 point then carries a NEGATIVE log10 flux
         e = f * 10 ** rng.uniform(-2, -0.5)
+        if v == 0 and rng.random() < 0.4:
+            # an unused band usually carries a placeholder instead of a measurement (docs/data.rst shows -9.999e+02)
+            f = rng.choice([-999.9, -999.9, 0.0, -1.0])
+            e = rng.choice([-999.9, 0.0, 1.0])
         if v in (2, 3):
             e = rng.choice([0., 0.5, 0.9, 1.0])
         elif v == 4:
